@@ -428,6 +428,18 @@ def vacuity_check(unit):
     return {"unit": unit, "functions_checked": len(want), "functions_refuting_false": len(want) - len(vacuous), "vacuous": vacuous, "wall_s": round(res["wall_s"], 1)}
 
 
+def stability_check(unit, seeds=(11, 23, 47)):
+    """thorough tier: the unit must verify identically under other Z3 random seeds (unstable proofs fail for no semantic reason)"""
+    gen_path, _ = vrun.extract(unit)
+    out = []
+    for sd in seeds:
+        p = subprocess.run(["verus", os.path.basename(gen_path), "--smt-option", "smt.random_seed=%d" % sd, "--smt-option", "sat.random_seed=%d" % sd],
+                           cwd=vrun.GEN, capture_output=True, text=True, timeout=900)
+        m = re.search(r"verification results:: (\d+) verified, (\d+) errors", p.stdout + p.stderr)
+        out.append({"seed": sd, "verified": int(m.group(1)) if m else None, "errors": int(m.group(2)) if m else None})
+    return {"unit": unit, "runs": out, "stable": all(o["errors"] == 0 for o in out) and len(set(o["verified"] for o in out)) == 1}
+
+
 # ---------------------------------------------------------------------------------------------
 def load_known():
     p = os.path.join(VERIF, "known_findings.json")
